@@ -46,6 +46,23 @@ func Group(services *fun.Iterator[*Service]) *Service {
 			}
 			wg.Wait(ctx)
 			ec.Add(waiters.Close())
+
+			// returning ends the context the members were started
+			// with: leave them running until they have all
+			// returned or the group's own context ends.
+			done := make(chan struct{})
+			go func() {
+				defer close(done)
+				defer erc.Recover(ec)
+				iter := waiters.Iterator()
+				for iter.Next(ctx) {
+					_ = iter.Value()()
+				}
+			}()
+			select {
+			case <-ctx.Done():
+			case <-done:
+			}
 			return nil
 		},
 		Cleanup: func() error {
